@@ -67,8 +67,37 @@ def run(ctx):
                 st["distinct"].add(r["query"])
             if len(st["samples"]) < 4 and len(raw_rows) >= 3:
                 st["samples"].append({"query": r["query"], "row": list(agg_rows[0]), "values": [list(x) for x in raw_rows[:8]]})
+    # ---- harness: the real get_aggregate_value vs model.Agg, strings compared exactly ----
+    n_h = 0
+    try:
+        from .harness import Harness
+        from .common import gstr, glist, coq_eval, parse_nested
+        pool = ["0", "1", "2", "6", "7", "10", "255", "4096", "65537", "9007199254740993", "18446744073709551615", "-3", "2.5", "", "abc", "+4", "007", "1e3", " 5"]
+        fn = {"count": "FnCount", "sum": "FnSum", "min": "FnMin", "max": "FnMax", "avg": "FnAvg", "var_pop": "FnVarPop", "var_samp": "FnVarSamp",
+              "stddev_pop": "FnStdDevPop", "stddev_samp": "FnStdDevSamp"}
+        reqs, exprs = [], []
+        for _ in range(60 if ctx.tier == "quick" else 3000):
+            rows = [{"K": rng.choice(pool)} if rng.random() < 0.9 else {"Other": "1"} for _ in range(rng.choice([0, 1, 2, 3, 5, 9]))]
+            bt = glist([glist(["(%s, %s)" % (gstr(k), gstr(v)) for k, v in r.items()], "(str * str)") for r in rows], "(list (str * str))")
+            for a in agglib.AGGS:
+                reqs.append({"cmd": "agg", "f": a, "rows": rows, "key": "K", "default": None})
+                exprs.append("match get_aggregate_value_b Release (Some %s) %s %s None with Ok x => (0%%N, x) | Panic _ => (101%%N, []) | _ => (3%%N, []) end" % (fn[a], bt, gstr("K")))
+        hres = Harness().batch(reqs)
+        hdr = "From Coq Require Import List NArith.\nFrom FS Require Import lib.Str lib.Res gen.FuncGen model.Agg.\nImport ListNotations. Open Scope N_scope.\n"
+        mres = coq_eval(hdr, exprs, ctx.scratch, tag="c07h", shard=60)
+        for rq, hr, mt in zip(reqs, hres, mres):
+            n_h += 1
+            cls, txt = parse_nested(mt)
+            mo = "".join(map(chr, txt)) if cls == 0 else None
+            if hr.get("r") != mo:
+                ctx.violation("correspondence-mismatch", "get_aggregate_value(%s) = %r, model.Agg gives %r" % (rq["f"], hr, mo), input=rq, concrete=False,
+                              correspondence="harness function::get_aggregate_value vs model.Agg.get_aggregate_value_b Release")
+            else:
+                st["agreed"] += 1
+    except Exception as e:
+        ctx.notes.append("harness: fallback-binary-only (%s)" % str(e)[:200])
     ctx.coverage.update(
-        evaluations=len(jobs), distinct_nontrivial=len(st["distinct"]), traces_validated_against_impl=st["agreed"],
+        evaluations=len(jobs) + n_h, distinct_nontrivial=len(st["distinct"]), traces_validated_against_impl=st["agreed"],
         rule="random trees (0, 1, 2 and many matching entries; sizes with non-integer mean; sizes above 2^33) x select lists of 1-9 aggregates (all nine functions, all documented spellings, any case) over size, hardlinks, uid, length(name), line_count x WHERE filters (incl. one matching nothing): exactly one row; COUNT/SUM/MIN/MAX equal the exact values computed from the same query without aggregates; AVG, VAR_*, STDDEV_* within 1e-11 relative of the exact rational formulas. non-trivial = at least two matching entries",
         samples=st["samples"], distribution=dict(st["hist"]))
     return ctx.finish(trusted=["the per-entry column values are taken from the binary's own non-aggregate run of the same query (C04/C02 cover them)", "sqrt is IEEE (as in Rust); the tolerance only absorbs binary64 rounding of the accumulation"])
